@@ -1,6 +1,557 @@
+(* C08 -- proofs, part 1: the low-level model L (flags, candidate bits) processes one actual call exactly as the flag-free
+   reference semantics M does (call-level refinement), for arbitrary expectation sets without ignoreOtherParameters and
+   actual calls that do not pass a parameter name twice. *)
 From Coq Require Import ZArith NArith Bool List Lia.
 From CppUVerif Require Import lib.CInt lib.Str C08_Model.
 Import ListNotations.
+Local Open Scope N_scope.
 
-Lemma veq_refl v : pv_valid v = true -> veq v v = true.
-Proof. destruct v; cbn; intros _; [apply eqb_reflx | apply Z.eqb_refl | apply bytes_eqb_refl | apply Z.eqb_refl]. Qed.
+(* ------------------------------------------------------------------ values *)
+Lemma veq_refl v : veq v v = true.
+Proof. destruct v; cbn; [apply eqb_reflx | apply Z.eqb_refl | apply bytes_eqb_refl | apply Z.eqb_refl]. Qed.
+Lemma veq_sym a b : veq a b = veq b a.
+Proof.
+  destruct a, b; cbn; try reflexivity; [destruct b, b0; reflexivity | apply Z.eqb_sym | apply bytes_eqb_sym | apply Z.eqb_sym].
+Qed.
+Lemma veq_trans a b c : veq a b = true -> veq b c = true -> veq a c = true.
+Proof.
+  destruct a, b, c; cbn; try discriminate; intros H1 H2.
+  - apply eqb_prop in H1, H2. subst. apply eqb_reflx.
+  - apply Z.eqb_eq in H1, H2. subst. apply Z.eqb_refl.
+  - apply bytes_eqb_eq in H1, H2. subst. apply bytes_eqb_refl.
+  - apply Z.eqb_eq in H1, H2. subst. apply Z.eqb_refl.
+Qed.
+Lemma veq_trans_l a b c : veq a b = true -> veq a c = veq b c.
+Proof.
+  intro H. destruct (veq b c) eqn:E.
+  - eapply veq_trans; eauto.
+  - destruct (veq a c) eqn:E2; [|reflexivity]. rewrite veq_sym in H. rewrite <- E. symmetry. eapply veq_trans; eauto.
+Qed.
+Lemma pv_eqb_refl v : pv_eqb v v = true.
+Proof. destruct v; cbn; [apply eqb_reflx | | apply bytes_eqb_refl | apply Z.eqb_refl]. rewrite Z.eqb_refl. destruct t; reflexivity. Qed.
+
+(* ------------------------------------------------------------------ list helpers *)
+Lemma existsb_map {A B} (f : B -> bool) (g : A -> B) l : existsb f (map g l) = existsb (fun x => f (g x)) l.
+Proof. induction l; cbn; congruence. Qed.
+Lemma forallb_map {A B} (f : B -> bool) (g : A -> B) l : forallb f (map g l) = forallb (fun x => f (g x)) l.
+Proof. induction l; cbn; congruence. Qed.
+Lemma existsb_ext' {A} (f g : A -> bool) l : (forall x, In x l -> f x = g x) -> existsb f l = existsb g l.
+Proof. induction l; cbn; intro H; [reflexivity|]. rewrite H by auto. rewrite IHl; auto. Qed.
+Lemma forallb_ext' {A} (f g : A -> bool) l : (forall x, In x l -> f x = g x) -> forallb f l = forallb g l.
+Proof. induction l; cbn; intro H; [reflexivity|]. rewrite H by auto. rewrite IHl; auto. Qed.
+Lemma existsb_false {A} (f : A -> bool) l : existsb f l = false <-> forall x, In x l -> f x = false.
+Proof.
+  split.
+  - intros H x Hx. destruct (f x) eqn:E; [|reflexivity]. rewrite <- H. symmetry. apply existsb_exists. eauto.
+  - intro H. destruct (existsb f l) eqn:E; [|reflexivity]. apply existsb_exists in E. destruct E as [x [Hx Hf]]. rewrite H in Hf; auto.
+Qed.
+
+Lemma cons_eq_inv {A} (a b : A) l m : a :: l = b :: m -> a = b /\ l = m.
+Proof. intro H. inversion H. auto. Qed.
+
+(* ------------------------------------------------------------------ what the matching reads of an expectation *)
+Definition pl (e : expn) : list (name * pv) := map (fun p => (p_name p, p_val p)) (e_params e).
+
+Lemma find_param_lookup n ps :
+  lookup n (map (fun p => (p_name p, p_val p)) ps) = match find_param n ps with Some q => Some (p_val q) | None => None end.
+Proof.
+  unfold lookup, find_param. induction ps as [|p r IH]; cbn; [reflexivity|].
+  destruct (p_name p =? n); [reflexivity|]. exact IH.
+Qed.
+Lemma has_input_pl n v e : has_input n v e = match lookup n (pl e) with Some w => veq w v | None => e_ign e end.
+Proof. unfold has_input, pl. rewrite find_param_lookup. destruct (find_param n (e_params e)); reflexivity. Qed.
+Lemma has_input_name_pl n e : has_input_name n e = existsb (fun q => fst q =? n) (pl e).
+Proof.
+  unfold has_input_name, find_param, pl. rewrite existsb_map. cbn. induction (e_params e) as [|p r IH]; cbn; [reflexivity|].
+  destruct (p_name p =? n); [reflexivity|]. exact IH.
+Qed.
+Lemma has_input_noign n v e : e_ign e = false -> has_input n v e = has_pv (pl e) (n, v).
+Proof. intro H. rewrite has_input_pl. unfold has_pv. cbn. rewrite H. reflexivity. Qed.
+
+(* the part of an expectation the operations of one call never change *)
+Definition stat (e : expn) := (e_name e, pl e, e_ign e, (e_lo e, e_hi e, e_ooo e), e_ret e, (e_act e, e_exp e)).
+Lemma pl_set_flags e (g : param -> param) :
+  (forall p, p_name (g p) = p_name p /\ p_val (g p) = p_val p) -> pl (set_params e (map g (e_params e))) = pl e.
+Proof. intro H. unfold pl. cbn. rewrite map_map. apply map_ext. intro p. destruct (H p) as [A B]. rewrite A, B. reflexivity. Qed.
+Lemma stat_reset e : stat (reset_e e) = stat e.
+Proof. unfold stat, reset_e. cbn. f_equal. f_equal. f_equal. f_equal. f_equal. apply (pl_set_flags e (fun p => set_flag p false)). intro p. split; reflexivity. Qed.
+Lemma stat_mark n e : stat (mark n e) = stat e.
+Proof.
+  unfold stat, mark. cbn. f_equal. f_equal. f_equal. f_equal. f_equal.
+  apply (pl_set_flags e (fun p => if p_name p =? n then set_flag p true else p)). intro p. destruct (p_name p =? n); split; reflexivity.
+Qed.
+Lemma stat_set_pot e b : stat (set_pot e b) = stat e. Proof. reflexivity. Qed.
+Lemma stat_set_cur e b : stat (set_cur e b) = stat e. Proof. reflexivity. Qed.
+Lemma stat_set_fin e b : stat (set_fin e b) = stat e. Proof. reflexivity. Qed.
+
+Definition can_match_s (s : N * N) := fst s <? snd s.
+Lemma stat_name e e' : stat e = stat e' -> e_name e = e_name e'. Proof. unfold stat. intro H. inversion H. reflexivity. Qed.
+Lemma stat_pl e e' : stat e = stat e' -> pl e = pl e'. Proof. unfold stat. intro H. inversion H. reflexivity. Qed.
+Lemma stat_ign e e' : stat e = stat e' -> e_ign e = e_ign e'. Proof. unfold stat. intro H. inversion H. reflexivity. Qed.
+Lemma stat_cnt e e' : stat e = stat e' -> e_act e = e_act e' /\ e_exp e = e_exp e'. Proof. unfold stat. intro H. inversion H. auto. Qed.
+Lemma stat_ret e e' : stat e = stat e' -> e_ret e = e_ret e'. Proof. unfold stat. intro H. inversion H. reflexivity. Qed.
+Lemma stat_ord e e' : stat e = stat e' -> e_lo e = e_lo e' /\ e_hi e = e_hi e' /\ e_ooo e = e_ooo e'. Proof. unfold stat. intro H. inversion H. auto. Qed.
+
+Lemma stat_has_input n v e e' : stat e = stat e' -> has_input n v e = has_input n v e'.
+Proof. intro H. rewrite !has_input_pl. rewrite (stat_pl _ _ H), (stat_ign _ _ H). reflexivity. Qed.
+Lemma stat_can_match e e' : stat e = stat e' -> can_match e = can_match e'.
+Proof. intro H. unfold can_match. destruct (stat_cnt _ _ H) as [A B]. rewrite A, B. reflexivity. Qed.
+Lemma stat_relates f e e' : stat e = stat e' -> relates f e = relates f e'.
+Proof. intro H. unfold relates. rewrite (stat_name _ _ H). reflexivity. Qed.
+
+(* ------------------------------------------------------------------ static predicates of a call (f, P) on an expectation *)
+Definition agreesL (P : list (name * pv)) (e : expn) : bool := forallb (fun x => has_input (fst x) (snd x) e) P.
+Definition passed (P : list (name * pv)) (n : name) : bool := existsb (fun x => fst x =? n) P.
+Definition coveredL (P : list (name * pv)) (e : expn) : bool := forallb (fun q => passed P (fst q)) (pl e).
+Definition liveL (f : name) (P : list (name * pv)) (e : expn) : bool := can_match e && relates f e && agreesL P e.
+Definition flags_ok (P : list (name * pv)) (e : expn) : bool :=
+  forallb (fun q => Bool.eqb (p_flag q) (passed P (p_name q))) (e_params e).
+
+Lemma stat_agrees P e e' : stat e = stat e' -> agreesL P e = agreesL P e'.
+Proof. intro H. unfold agreesL. apply forallb_ext'. intros x _. apply stat_has_input. exact H. Qed.
+Lemma stat_covered P e e' : stat e = stat e' -> coveredL P e = coveredL P e'.
+Proof. intro H. unfold coveredL. rewrite (stat_pl _ _ H). reflexivity. Qed.
+Lemma stat_live f P e e' : stat e = stat e' -> liveL f P e = liveL f P e'.
+Proof. intro H. unfold liveL. rewrite (stat_can_match _ _ H), (stat_relates f _ _ H), (stat_agrees P _ _ H). reflexivity. Qed.
+
+Lemma flags_covered P e : flags_ok P e = true -> params_matching e = coveredL P e.
+Proof.
+  unfold flags_ok, params_matching, coveredL, pl. rewrite forallb_map. cbn.
+  induction (e_params e) as [|q r IH]; cbn; [reflexivity|]. intro H. apply andb_true_iff in H. destruct H as [H1 H2].
+  apply eqb_prop in H1. rewrite H1. rewrite IH by exact H2. reflexivity.
+Qed.
+
+Lemma agrees_app P Q e : agreesL (P ++ Q) e = agreesL P e && agreesL Q e.
+Proof. unfold agreesL. apply forallb_app. Qed.
+Lemma passed_app P Q n : passed (P ++ Q) n = passed P n || passed Q n.
+Proof. unfold passed. apply existsb_app. Qed.
+
+(* an expectation whose parameters were all passed already has no parameter named n when n was not passed yet *)
+Lemma covered_lacks P e n v :
+  coveredL P e = true -> passed P n = false -> e_ign e = false -> has_input n v e = false.
+Proof.
+  intros Hc Hn Hi. rewrite has_input_pl, Hi. unfold lookup.
+  destruct (find (fun x => fst x =? n) (pl e)) as [x|] eqn:E; [|reflexivity].
+  apply find_some in E. destruct E as [Hin Hx]. apply N.eqb_eq in Hx.
+  unfold coveredL in Hc. rewrite forallb_forall in Hc. specialize (Hc x Hin). change (passed P (fst x) = true) in Hc. rewrite Hx in Hc. congruence.
+Qed.
+
+(* ------------------------------------------------------------------ invariant of one expectation during a call (f, P):
+   P = the parameters passed so far.  Candidates and the current match are exactly the expectations alive for (f, P); their
+   flags say which of their parameters were passed; nothing is finalized. *)
+Definition okE (f : name) (P : list (name * pv)) (e : expn) : Prop :=
+  e_ign e = false /\
+  (e_pot e = true -> e_cur e = false /\ liveL f P e = true /\ flags_ok P e = true /\ e_fin e = false) /\
+  (e_cur e = true -> liveL f P e = true /\ flags_ok P e = true /\ e_fin e = false /\ coveredL P e = true) /\
+  (liveL f P e = true -> e_pot e || e_cur e = true).
+
+(* checkInputParameter on one expectation: discard, the two pruning passes, then the marking pass *)
+Definition stepE (n : name) (v : pv) (e : expn) : expn :=
+  let e1 := if e_cur e then set_cur (reset_e e) false else e in
+  let e2 := if e_pot e1 && is_matching_fin e1 then drop (reset_e e1) else e1 in
+  if e_pot e2 && negb (has_input n v e2) then drop e2 else e2.
+Definition markE (n : name) (e : expn) : expn := if e_pot e then mark n e else e.
+
+Lemma step_list n v es : keep_if (has_input n v) (discard es) = map (stepE n v) es.
+Proof. unfold keep_if, discard, only_keep_unmatching, for_cur. rewrite !map_map. apply map_ext. intro e. reflexivity. Qed.
+Lemma mark_list n es : for_pot (mark n) es = map (markE n) es.
+Proof. reflexivity. Qed.
+
+Lemma live_snoc f P n v e : liveL f (P ++ [(n, v)]) e = liveL f P e && has_input n v e.
+Proof. unfold liveL. rewrite agrees_app. unfold agreesL at 2. cbn. rewrite andb_true_r. rewrite !andb_assoc. reflexivity. Qed.
+
+Lemma flags_ok_mark P n v e : flags_ok P e = true -> flags_ok (P ++ [(n, v)]) (mark n e) = true.
+Proof.
+  unfold flags_ok, mark. cbn. rewrite forallb_map. intro H. rewrite forallb_forall in *. intros q Hq. specialize (H q Hq).
+  apply eqb_prop in H. rewrite passed_app. unfold passed at 2. cbn. rewrite orb_false_r.
+  destruct (p_name q =? n) eqn:E; cbn.
+  - rewrite N.eqb_sym, E. rewrite orb_true_r. reflexivity.
+  - rewrite H. rewrite N.eqb_sym, E. rewrite orb_false_r. apply eqb_reflx.
+Qed.
+
+Lemma is_matching_fin_ok P e : e_ign e = false -> flags_ok P e = true -> is_matching_fin e = coveredL P e.
+Proof. intros Hi Hf. unfold is_matching_fin, is_matching. rewrite (flags_covered P e Hf), Hi. cbn. apply andb_true_r. Qed.
+
+Lemma markE_off n x : e_pot x = false -> markE n x = x. Proof. unfold markE. intros ->. reflexivity. Qed.
+Lemma markE_on n x : e_pot x = true -> markE n x = mark n x. Proof. unfold markE. intros ->. reflexivity. Qed.
+
+Lemma step_elem f P n v e :
+  okE f P e -> passed P n = false ->
+  let e' := markE n (stepE n v e) in
+  stat e' = stat e /\ e_cur e' = false /\ e_pot e' = liveL f (P ++ [(n, v)]) e /\ e_pot (stepE n v e) = e_pot e' /\ e_ign e' = false /\
+  (e_pot e' = true -> flags_ok (P ++ [(n, v)]) e' = true /\ e_fin e' = false).
+Proof.
+  intros [Hi [Hp [Hc Hl]]] Hn. cbn zeta. rewrite live_snoc.
+  destruct (e_cur e) eqn:Ecur.
+  - destruct (Hc eq_refl) as [L [F [Fi C]]].
+    assert (Epot : e_pot e = false). { destruct (e_pot e) eqn:E; [|reflexivity]. destruct (Hp eq_refl) as [X _]. discriminate X. }
+    assert (S : stepE n v e = set_cur (reset_e e) false).
+    { unfold stepE. rewrite Ecur. cbn. rewrite Epot. cbn. rewrite Epot. reflexivity. }
+    rewrite S. rewrite markE_off by exact Epot.
+    rewrite (covered_lacks P e n v C Hn Hi), andb_false_r.
+    split; [apply stat_reset|]. split; [reflexivity|]. split; [exact Epot|]. split; [reflexivity|]. split; [exact Hi|].
+    intro X. exfalso. change (e_pot e = true) in X. congruence.
+  - destruct (e_pot e) eqn:Epot.
+    + destruct (Hp eq_refl) as [_ [L [F Fi]]].
+      destruct (coveredL P e) eqn:C.
+      * assert (S : stepE n v e = drop (reset_e e)).
+        { unfold stepE. rewrite Ecur. cbn zeta. rewrite Epot, (is_matching_fin_ok P e Hi F), C. reflexivity. }
+        rewrite S. rewrite markE_off by reflexivity.
+        rewrite (covered_lacks P e n v C Hn Hi), andb_false_r.
+        split; [apply stat_reset|]. split; [exact Ecur|]. split; [reflexivity|]. split; [reflexivity|]. split; [exact Hi|]. discriminate.
+      * destruct (has_input n v e) eqn:Hin.
+        -- assert (S : stepE n v e = e).
+           { unfold stepE. rewrite Ecur. cbn zeta. rewrite Epot, (is_matching_fin_ok P e Hi F), C. cbn. rewrite Epot, Hin. reflexivity. }
+           rewrite S. rewrite markE_on by exact Epot. rewrite L. cbn [andb].
+           split; [apply stat_mark|]. split; [exact Ecur|]. split; [exact Epot|]. split; [reflexivity|]. split; [exact Hi|].
+           intros _. split; [apply flags_ok_mark; exact F|exact Fi].
+        -- assert (S : stepE n v e = drop e).
+           { unfold stepE. rewrite Ecur. cbn zeta. rewrite Epot, (is_matching_fin_ok P e Hi F), C. cbn. rewrite Epot, Hin. reflexivity. }
+           rewrite S. rewrite markE_off by reflexivity. rewrite L. cbn [andb].
+           split; [reflexivity|]. split; [exact Ecur|]. split; [reflexivity|]. split; [reflexivity|]. split; [exact Hi|]. discriminate.
+    + assert (S : stepE n v e = e). { unfold stepE. rewrite Ecur. cbn zeta. rewrite Epot. cbn. rewrite Epot. reflexivity. }
+      rewrite S. rewrite markE_off by exact Epot.
+      assert (L : liveL f P e = false).
+      { destruct (liveL f P e) eqn:E; [|reflexivity]. specialize (Hl eq_refl). discriminate Hl. }
+      rewrite L. cbn [andb].
+      split; [reflexivity|]. split; [exact Ecur|]. split; [exact Epot|]. split; [reflexivity|]. split; [exact Hi|]. rewrite Epot. discriminate.
+Qed.
+
+(* take_first: what removeFirst... does *)
+Lemma take_first_none pred g es : take_first pred g es = None <-> forall e, In e es -> e_pot e && pred e = false.
+Proof.
+  induction es as [|e r IH]; cbn; [tauto|]. destruct (e_pot e && pred e) eqn:E.
+  - split; [discriminate|]. intro H. specialize (H e (or_introl eq_refl)). congruence.
+  - destruct (take_first pred g r) eqn:T.
+    + split; [discriminate|]. intro H. exfalso. assert (X : Some l = None) by (apply IH; intros x Hx; apply H; auto). discriminate X.
+    + split; [|reflexivity]. intros _ x [Hx|Hx]; [subst; exact E|]. apply IH; auto.
+Qed.
+Lemma take_first_some pred g es es' :
+  take_first pred g es = Some es' ->
+  exists l1 e l2, es = l1 ++ e :: l2 /\ es' = l1 ++ g (set_cur (drop e) true) :: l2 /\ e_pot e && pred e = true /\
+                  forall x, In x l1 -> e_pot x && pred x = false.
+Proof.
+  revert es'. induction es as [|e r IH]; cbn; intros es' H; [discriminate|]. destruct (e_pot e && pred e) eqn:E.
+  - inversion H; subst. exists [], e, r. cbn. repeat split; auto. intros x [].
+  - destruct (take_first pred g r) eqn:T; [|discriminate]. inversion H; subst.
+    destruct (IH l eq_refl) as [l1 [x [l2 [A [B [C D]]]]]]. exists (e :: l1), x, l2. subst. cbn. repeat split; auto.
+    intros y [Hy|Hy]; [subst; exact E|]. apply D. exact Hy.
+Qed.
+
+(* the state of the call after the parameters P *)
+Definition curS (P : list (name * pv)) (es : list expn) (st : cstate) : Prop :=
+  (st = InProgress /\ (forall e, In e es -> e_cur e = false) /\ (forall e, In e es -> e_pot e = true -> coveredL P e = false) /\
+   exists e, In e es /\ e_pot e = true)
+  \/ (st = Succeeded /\ exists l1 e l2, es = l1 ++ e :: l2 /\ e_cur e = true /\ (forall x, In x (l1 ++ l2) -> e_cur x = false) /\
+      forall x, In x l1 -> e_pot x = true -> coveredL P x = false).
+Definition Inv (f : name) (P : list (name * pv)) (es : list expn) (c : acall) : Prop :=
+  Forall (okE f P) es /\ c_name c = f /\ c_checked c = false /\ curS P es (c_state c).
+
+(* completeCallWhenMatchIsFound re-establishes the invariant from a list without current match *)
+Lemma complete_inv f P es c :
+  Forall (okE f P) es -> (forall e, In e es -> e_cur e = false) -> (exists e, In e es /\ e_pot e = true) ->
+  c_name c = f -> c_checked c = false -> c_state c = InProgress ->
+  let (es', c') := complete es c in Inv f P es' c' /\ map stat es' = map stat es.
+Proof.
+  intros Hok Hnc Hne Hn Hch Hst. unfold complete. destruct (take_first is_matching_fin (fun e => e) es) as [es'|] eqn:T.
+  - apply take_first_some in T. destruct T as [l1 [e [l2 [A [B [C D]]]]]]. subst es es'.
+    apply andb_true_iff in C. destruct C as [Cp Cm].
+    assert (He : okE f P e). { rewrite Forall_forall in Hok. apply Hok. apply in_or_app. right. left. reflexivity. }
+    destruct He as [Hi [Hp [Hc Hl]]]. destruct (Hp Cp) as [_ [L [F Fi]]]. rewrite (is_matching_fin_ok P e Hi F) in Cm.
+    split.
+    + split; [|split; [exact Hn|split; [exact Hch|]]].
+      * apply Forall_app. apply Forall_app in Hok. destruct Hok as [H1 H2]. split; [exact H1|]. inversion H2; subst.
+        constructor; [|assumption]. split; [exact Hi|]. cbn. split; [discriminate|]. split; [intros _; auto|]. intros _. reflexivity.
+      * right. cbn. split; [reflexivity|]. exists l1, (set_cur (drop e) true), l2. split; [reflexivity|]. split; [reflexivity|]. split.
+        -- intros x Hx. apply Hnc. apply in_app_or in Hx. apply in_or_app. destruct Hx; [left|right; right]; assumption.
+        -- intros x Hx Hpx. specialize (D x Hx). rewrite Hpx in D. cbn in D.
+           assert (Hox : okE f P x). { rewrite Forall_forall in Hok. apply Hok. apply in_or_app. left. exact Hx. }
+           destruct Hox as [Hix [Hpx' _]]. destruct (Hpx' Hpx) as [_ [_ [Fx _]]]. rewrite (is_matching_fin_ok P x Hix Fx) in D. exact D.
+    + rewrite !map_app. cbn. reflexivity.
+  - split; [|reflexivity]. split; [exact Hok|]. split; [exact Hn|]. split; [exact Hch|]. left. rewrite Hst. split; [reflexivity|].
+    split; [exact Hnc|]. split; [|exact Hne]. intros e He Hpe.
+    pose proof (proj1 (take_first_none _ _ _) T e He) as X. rewrite Hpe in X. cbn in X.
+    assert (Hoe : okE f P e). { rewrite Forall_forall in Hok. apply Hok. exact He. }
+    destruct Hoe as [Hi [Hp _]]. destruct (Hp Hpe) as [_ [_ [F _]]]. rewrite (is_matching_fin_ok P e Hi F) in X. exact X.
+Qed.
+
+Lemma stat_markE n e : stat (markE n e) = stat e.
+Proof. unfold markE. destruct (e_pot e); [apply stat_mark|reflexivity]. Qed.
+Lemma stat_has_input_name n e e' : stat e = stat e' -> has_input_name n e = has_input_name n e'.
+Proof. intro H. rewrite !has_input_name_pl, (stat_pl _ _ H). reflexivity. Qed.
+
+(* checkInputParameter on the whole list *)
+Lemma check_input_inv f P n v es c :
+  Inv f P es c -> passed P n = false ->
+  match check_input n v es c with
+  | inr fl => (forall e, In e es -> liveL f (P ++ [(n, v)]) e = false) /\
+              f_kind fl = (if existsb (fun e => relates f e && has_input_name n e) es then FParamValue f n else FParamName f n)
+  | inl (es', c') => Inv f (P ++ [(n, v)]) es' c' /\ map stat es' = map stat es /\ c_order c' = c_order c /\
+                     exists e, In e es /\ liveL f (P ++ [(n, v)]) e = true
+  end.
+Proof.
+  intros [Hok [Hn [Hch Hcs]]] Hp. unfold check_input. rewrite step_list.
+  assert (E : forall e, In e es -> okE f P e) by (apply Forall_forall; exact Hok).
+  assert (Hpot : existsb e_pot (map (stepE n v) es) = existsb (liveL f (P ++ [(n, v)])) es).
+  { rewrite existsb_map. apply existsb_ext'. intros e He. destruct (step_elem f P n v e (E e He) Hp) as [_ [_ [A [B _]]]]. congruence. }
+  unfold pot_empty. rewrite Hpot. destruct (existsb (liveL f (P ++ [(n, v)])) es) eqn:X; cbn [negb].
+  - (* candidates left *)
+    apply existsb_exists in X. destruct X as [e0 [He0 Hl0]].
+    rewrite mark_list, map_map.
+    pose proof (complete_inv f (P ++ [(n, v)]) (map (fun e => markE n (stepE n v e)) es) (set_state c InProgress)) as CI.
+    destruct (complete (map (fun e => markE n (stepE n v e)) es) (set_state c InProgress)) as [es' c'] eqn:Ec.
+    assert (CO : c_order c' = c_order c).
+    { unfold complete in Ec. destruct (take_first is_matching_fin (fun e => e) _); inversion Ec; reflexivity. }
+    destruct CI as [I S].
+    + apply Forall_forall. intros x Hx. apply in_map_iff in Hx. destruct Hx as [e [Hx He]]. subst x.
+      destruct (step_elem f P n v e (E e He) Hp) as [S1 [S2 [S3 [_ [S5 S6]]]]].
+      split; [exact S5|]. split.
+      * intro Hq. split; [exact S2|]. split; [rewrite (stat_live _ _ _ _ S1); congruence|]. apply S6. exact Hq.
+      * split; [intro Hq; congruence|]. intro Hq. rewrite (stat_live _ _ _ _ S1) in Hq. rewrite S3, Hq. reflexivity.
+    + intros x Hx. apply in_map_iff in Hx. destruct Hx as [e [Hx He]]. subst x.
+      destruct (step_elem f P n v e (E e He) Hp) as [_ [S2 _]]. exact S2.
+    + exists (markE n (stepE n v e0)). split; [apply in_map_iff; exists e0; auto|].
+      destruct (step_elem f P n v e0 (E e0 He0) Hp) as [_ [_ [S3 _]]]. congruence.
+    + exact Hn.
+    + exact Hch.
+    + reflexivity.
+    + split; [exact I|]. split.
+      * rewrite S, map_map. apply map_ext_in. intros e He. destruct (step_elem f P n v e (E e He) Hp) as [S1 _]. exact S1.
+      * split; [exact CO|]. exists e0. auto.
+  - (* no candidate left *)
+    split; [apply existsb_false; exact X|]. cbn. rewrite Hn.
+    assert (Y : existsb (fun e => relates f e && has_input_name n e) (map (stepE n v) es) = existsb (fun e => relates f e && has_input_name n e) es).
+    { rewrite existsb_map. apply existsb_ext'. intros e He. destruct (step_elem f P n v e (E e He) Hp) as [S1 _].
+      rewrite stat_markE in S1. rewrite (stat_relates f _ _ S1), (stat_has_input_name n _ _ S1). reflexivity. }
+    cbn in Y. rewrite Y. reflexivity.
+Qed.
+
+Lemma fulfilled_for_stat f (g : expn -> expn) es : (forall e, stat (g e) = stat e) -> fulfilled_for f (map g es) = fulfilled_for f es.
+Proof.
+  intro H. unfold fulfilled_for. induction es as [|e r IH]; cbn; [reflexivity|].
+  rewrite (stat_relates f _ _ (H e)). destruct (stat_cnt _ _ (H e)) as [A _]. rewrite A, IH. reflexivity.
+Qed.
+
+(* the constructor and withName *)
+Lemma with_name_inv f es c :
+  (forall e, In e es -> e_ign e = false) -> c_name c = f -> c_checked c = false ->
+  match with_name (create true es) c with
+  | inr fl => (forall e, In e es -> can_match e && relates f e = false) /\
+              f_kind fl = (let n := fulfilled_for f es in if 0 <? n then FAdditionalCall f (n + 1) else FUnexpectedCall f)
+  | inl (es', c') => Inv f [] es' c' /\ map stat es' = map stat es /\ c_order c' = c_order c /\
+                     exists e, In e es /\ can_match e && relates f e = true
+  end.
+Proof.
+  intros Hi Hn Hch. unfold with_name. cbn [c_name set_state]. rewrite Hn.
+  set (g := fun e => let e1 := (fun e => let e := set_cur e false in if can_match e then set_pot (reset_e e) true else set_pot e false) e in
+                     if e_pot e1 && negb (relates f e1) then drop e1 else e1).
+  assert (G : keep_if (relates f) (create true es) = map g es).
+  { unfold keep_if, create. rewrite map_map. apply map_ext. intro e. reflexivity. }
+  rewrite G.
+  assert (P1 : forall e, stat (g e) = stat e /\ e_cur (g e) = false /\ e_pot (g e) = can_match e && relates f e /\
+                         (e_pot (g e) = true -> flags_ok [] (g e) = true /\ e_fin (g e) = false)).
+  { intro e. unfold g. cbn zeta. change (can_match (set_cur e false)) with (can_match e). destruct (can_match e) eqn:Cm.
+    - change (e_pot (set_pot (reset_e (set_cur e false)) true)) with true. cbn [andb].
+      change (relates f (set_pot (reset_e (set_cur e false)) true)) with (relates f e).
+      destruct (relates f e) eqn:R; cbn [negb].
+      + split; [apply (stat_reset (set_cur e false))|]. split; [reflexivity|]. split; [reflexivity|]. intros _. split; [|reflexivity].
+        unfold flags_ok. cbn. rewrite forallb_map. apply forallb_forall. intros q _. reflexivity.
+      + split; [apply (stat_reset (set_cur e false))|]. split; [reflexivity|]. split; [reflexivity|]. discriminate.
+    - change (e_pot (set_pot (set_cur e false) false)) with false. cbn [andb]. split; [reflexivity|]. split; [reflexivity|]. split; [reflexivity|]. discriminate. }
+  assert (Hpot : existsb e_pot (map g es) = existsb (fun e => can_match e && relates f e) es).
+  { rewrite existsb_map. apply existsb_ext'. intros e _. apply P1. }
+  unfold pot_empty. rewrite Hpot. destruct (existsb (fun e => can_match e && relates f e) es) eqn:X; cbn [negb].
+  - apply existsb_exists in X. destruct X as [e0 [He0 Hl0]].
+    pose proof (complete_inv f [] (map g es) (set_state c InProgress)) as CI.
+    destruct (complete (map g es) (set_state c InProgress)) as [es' c'] eqn:Ec.
+    assert (CO : c_order c' = c_order c).
+    { unfold complete in Ec. destruct (take_first is_matching_fin (fun e => e) _); inversion Ec; reflexivity. }
+    destruct CI as [I S].
+    + apply Forall_forall. intros x Hx. apply in_map_iff in Hx. destruct Hx as [e [Hx He]]. subst x.
+      destruct (P1 e) as [S1 [S2 [S3 S4]]]. split; [rewrite (stat_ign _ _ S1); apply Hi; exact He|]. split.
+      * intro Hq. split; [exact S2|]. split; [|apply S4; exact Hq]. unfold liveL. rewrite (stat_can_match _ _ S1), (stat_relates f _ _ S1).
+        rewrite <- S3, Hq. reflexivity.
+      * split; [intro Hq; congruence|]. unfold liveL. rewrite (stat_can_match _ _ S1), (stat_relates f _ _ S1). cbn. rewrite andb_true_r.
+        intro Hq. rewrite S3, Hq. reflexivity.
+    + intros x Hx. apply in_map_iff in Hx. destruct Hx as [e [Hx He]]. subst x. apply P1.
+    + exists (g e0). split; [apply in_map_iff; exists e0; auto|]. destruct (P1 e0) as [_ [_ [S3 _]]]. congruence.
+    + exact Hn.
+    + exact Hch.
+    + reflexivity.
+    + split; [exact I|]. split; [|split; [exact CO|exists e0; auto]]. rewrite S, map_map. apply map_ext. intro e. apply P1.
+  - split; [apply existsb_false; exact X|]. cbn.
+    assert (Y : fulfilled_for f (map g es) = fulfilled_for f es) by (apply fulfilled_for_stat; intro e; apply P1).
+    rewrite Y. reflexivity.
+Qed.
+
+(* ------------------------------------------------------------------ abstraction to the reference semantics M *)
+Definition abs (e : expn) : mexp :=
+  {| x_e := (e_exp e, e_name e, pl e, e_ret e); x_left := e_exp e - e_act e; x_done := e_act e;
+     x_lo := e_lo e; x_hi := e_hi e; x_ooo := e_ooo e |}.
+Lemma abs_stat e e' : stat e = stat e' -> abs e = abs e'.
+Proof.
+  intro H. unfold abs. rewrite (stat_name _ _ H), (stat_pl _ _ H), (stat_ret _ _ H). destruct (stat_cnt _ _ H) as [A B].
+  destruct (stat_ord _ _ H) as [C [D E]]. rewrite A, B, C, D, E. reflexivity.
+Qed.
+Lemma map_abs_stat es es' : map stat es = map stat es' -> map abs es = map abs es'.
+Proof.
+  revert es'. induction es as [|e r IH]; destruct es' as [|e' r']; cbn; intro H; try discriminate; [reflexivity|].
+  destruct (cons_eq_inv _ _ _ _ H) as [H1 H2]. rewrite (abs_stat _ _ H1), (IH _ H2). reflexivity.
+Qed.
+Lemma open_abs e : x_open (abs e) = can_match e.
+Proof.
+  unfold x_open, can_match, abs. cbn. destruct (e_act e <? e_exp e) eqn:E.
+  - apply N.ltb_lt in E. apply N.ltb_lt. lia.
+  - apply N.ltb_ge in E. apply N.ltb_ge. lia.
+Qed.
+Lemma agrees_abs P e : e_ign e = false -> agrees_upto (x_e (abs e)) P = agreesL P e.
+Proof.
+  intro H. unfold agrees_upto, agreesL. apply forallb_ext'. intros [n v] _. cbn [fst snd]. rewrite (has_input_noign n v e H). reflexivity.
+Qed.
+Lemma live_abs f P e : e_ign e = false -> x_open (abs e) && (sx_f (x_e (abs e)) =? f) && agrees_upto (x_e (abs e)) P = liveL f P e.
+Proof. intro H. rewrite open_abs, (agrees_abs P e H). reflexivity. Qed.
+Lemma matches_abs f P e : e_ign e = false -> matches (x_e (abs e)) f P = relates f e && agreesL P e && coveredL P e.
+Proof. intro H. unfold matches. fold (agrees_upto (x_e (abs e)) P). rewrite (agrees_abs P e H). reflexivity. Qed.
+
+Definition no_ign (es : list expn) : Prop := forall e, In e es -> e_ign e = false.
+Lemma no_ign_stat es es' : map stat es = map stat es' -> no_ign es -> no_ign es'.
+Proof.
+  revert es'. induction es as [|e r IH]; destruct es' as [|e' r']; cbn; intros H N; try discriminate; [exact N|].
+  destruct (cons_eq_inv _ _ _ _ H) as [H1 H2]. intros x [Hx|Hx]; [subst; rewrite <- (stat_ign _ _ H1); apply N; left; reflexivity|].
+  apply (IH r' H2); [intros y Hy; apply N; right; exact Hy|exact Hx].
+Qed.
+Lemma Inv_no_ign f P es c : Inv f P es c -> no_ign es.
+Proof. intros [H _] e He. rewrite Forall_forall in H. apply (H e He). Qed.
+
+Lemma live_exists_abs f P es : no_ign es ->
+  existsb (fun x => x_open x && (sx_f (x_e x) =? f) && agrees_upto (x_e x) P) (map abs es) = existsb (liveL f P) es.
+Proof. intro N. rewrite existsb_map. apply existsb_ext'. intros e He. apply live_abs. apply N. exact He. Qed.
+
+(* the parameters of the call, one after the other: L fails at the first parameter after which M has no candidate left *)
+Lemma with_params_inv f : forall ps P es c,
+  Inv f P es c -> nodup_names (map fst ps) = true -> (forall x, In x ps -> passed P (fst x) = false) ->
+  match with_params ps es c with
+  | inr fl => exists p, first_dead f (map abs es) P ps = Some p /\
+                        f_kind fl = (if existsb (fun e => relates f e && has_input_name p e) es then FParamValue f p else FParamName f p)
+  | inl (es', c') => first_dead f (map abs es) P ps = None /\ Inv f (P ++ ps) es' c' /\ map stat es' = map stat es /\ c_order c' = c_order c
+  end.
+Proof.
+  induction ps as [|[n v] r IH]; intros P es c HI Hnd Hfr.
+  - cbn. rewrite app_nil_r. auto.
+  - cbn [with_params]. cbn in Hnd. apply andb_true_iff in Hnd. destruct Hnd as [Hn1 Hn2].
+    assert (Hp : passed P n = false) by (apply (Hfr (n, v)); left; reflexivity).
+    pose proof (check_input_inv f P n v es c HI Hp) as CI.
+    cbn [first_dead]. rewrite (live_exists_abs f (P ++ [(n, v)]) es (Inv_no_ign _ _ _ _ HI)).
+    destruct (check_input n v es c) as [[es1 c1]|fl].
+    + destruct CI as [I1 [S1 [O1 [e0 [He0 Hl0]]]]].
+      assert (X : existsb (liveL f (P ++ [(n, v)])) es = true) by (apply existsb_exists; eauto). rewrite X.
+      specialize (IH (P ++ [(n, v)]) es1 c1 I1 Hn2).
+      assert (Hfr' : forall x, In x r -> passed (P ++ [(n, v)]) (fst x) = false).
+      { intros x Hx. rewrite passed_app. rewrite (Hfr x (or_intror Hx)). unfold passed. cbn. rewrite orb_false_r.
+        apply negb_true_iff in Hn1. rewrite existsb_false in Hn1. apply Hn1. apply in_map. exact Hx. }
+      specialize (IH Hfr'). rewrite (map_abs_stat _ _ S1) in IH.
+      destruct (with_params r es1 c1) as [[es2 c2]|fl].
+      * destruct IH as [A [B [C D]]]. rewrite <- app_assoc in B. cbn [app] in B.
+        split; [exact A|]. split; [exact B|]. split; [rewrite C; exact S1|rewrite D; exact O1].
+      * destruct IH as [p [A B]]. exists p. split; [exact A|]. rewrite B.
+        assert (Y : existsb (fun e => relates f e && has_input_name p e) es1 = existsb (fun e => relates f e && has_input_name p e) es).
+        { clear - S1. revert es S1. induction es1 as [|a l IHl]; destruct es as [|b m]; cbn; intro H; try discriminate; [reflexivity|].
+          destruct (cons_eq_inv _ _ _ _ H) as [H1 H2]. rewrite (stat_relates f _ _ H1), (stat_has_input_name p _ _ H1), (IHl _ H2). reflexivity. }
+        rewrite Y. reflexivity.
+    + destruct CI as [A B]. assert (X : existsb (liveL f (P ++ [(n, v)])) es = false) by (apply existsb_false; exact A).
+      rewrite X. exists n. cbn [fst]. auto.
+Qed.
+
+(* ------------------------------------------------------------------ finishing the call (MockCheckedActualCall::checkExpectations) *)
+Definition wfE (e : expn) : Prop := e_ign e = false /\ e_act e <= e_exp e.
+Definition upd_m (order : N) (x : mexp) : mexp :=
+  {| x_e := x_e x; x_left := x_left x - 1; x_done := x_done x + 1; x_lo := x_lo x; x_hi := x_hi x;
+     x_ooo := if negb (x_lo x =? 0) && ((order <? x_lo x) || (x_hi x <? order)) then true else x_ooo x |}.
+Lemma consume_none f P o xs : (forall x, In x xs -> x_open x && matches (x_e x) f P = false) -> consume f P o xs = None.
+Proof.
+  induction xs as [|x r IH]; cbn; intro H; [reflexivity|]. rewrite (H x (or_introl eq_refl)). rewrite IH; [reflexivity|]. intros y Hy. apply H. auto.
+Qed.
+Lemma consume_app f P o l1 y l2 :
+  (forall x, In x l1 -> x_open x && matches (x_e x) f P = false) -> x_open y && matches (x_e y) f P = true ->
+  consume f P o (l1 ++ y :: l2) = Some (l1 ++ upd_m o y :: l2, sx_ret (x_e y)).
+Proof.
+  intros H Hy. induction l1 as [|x r IH]; cbn.
+  - rewrite Hy. reflexivity.
+  - rewrite (H x (or_introl eq_refl)). rewrite IH; [reflexivity|]. intros z Hz. apply H. right. exact Hz.
+Qed.
+Lemma abs_cwm o e : can_match e = true -> abs (call_was_made o e) = upd_m o (abs e).
+Proof.
+  intro H. unfold call_was_made. rewrite (abs_stat _ _ (stat_reset _)). unfold abs, upd_m. cbn. f_equal.
+  apply N.ltb_lt in H. lia.
+Qed.
+Lemma for_cur_id g l : (forall x, In x l -> e_cur x = false) -> for_cur g l = l.
+Proof.
+  intro H. unfold for_cur. induction l as [|x r IH]; cbn; [reflexivity|]. rewrite (H x (or_introl eq_refl)). rewrite IH; [reflexivity|].
+  intros y Hy. apply H. right. exact Hy.
+Qed.
+Lemma map_abs_for_pot_reset l : map abs (for_pot reset_e l) = map abs l.
+Proof. unfold for_pot. rewrite map_map. apply map_ext. intro e. destruct (e_pot e); [apply abs_stat, stat_reset|reflexivity]. Qed.
+Lemma live_matches f P e : e_ign e = false ->
+  x_open (abs e) && matches (x_e (abs e)) f P = liveL f P e && coveredL P e.
+Proof. intro H. rewrite open_abs, (matches_abs f P e H). unfold liveL. rewrite !andb_assoc. reflexivity. Qed.
+
+Lemma finish_inv f P es c :
+  Inv f P es c -> Forall wfE es ->
+  match check_call es c with
+  | inl (es', c') => exists v, consume f P (c_order c) (map abs es) = Some (map abs es', v) /\ cur_ret es' = v /\
+                               c_state c' = Succeeded /\ c_checked c' = true /\ Forall wfE es'
+  | inr fl => consume f P (c_order c) (map abs es) = None /\ f_kind fl = FParamMissing f (N.of_nat (length (filter e_pot es))) /\
+              exists e, In e es /\ liveL f P e = true
+  end.
+Proof.
+  intros [Hok [Hn [Hch Hcs]]] Hwf. assert (E : forall e, In e es -> okE f P e) by (apply Forall_forall; exact Hok).
+  unfold check_call. rewrite Hch. cbn [c_state set_checked c_order c_name].
+  destruct Hcs as [[Hst [Hnc [Hcov [e0 [He0 Hp0]]]]]|[Hst [l1 [e [l2 [Hes [Hce [Hnc Hl1]]]]]]]]; rewrite Hst.
+  - assert (A : existsb (fun e => e_pot e && is_matching_fin e) es = false).
+    { apply existsb_false. intros x Hx. destruct (e_pot x) eqn:Px; [|reflexivity]. cbn.
+      destruct (E x Hx) as [Hi [Hp _]]. destruct (Hp Px) as [_ [_ [F _]]]. rewrite (is_matching_fin_ok P x Hi F). apply Hcov; assumption. }
+    rewrite A.
+    assert (B : take_first is_matching (fun e => call_was_made (c_order c) (set_fin e true)) es = None).
+    { apply take_first_none. intros x Hx. destruct (e_pot x) eqn:Px; [|reflexivity]. cbn.
+      destruct (E x Hx) as [Hi [Hp _]]. destruct (Hp Px) as [_ [_ [F _]]]. unfold is_matching. rewrite (flags_covered P x F). apply Hcov; assumption. }
+    rewrite B.
+    assert (C : existsb (fun e => e_pot e && negb (params_matching e)) es = true).
+    { apply existsb_exists. exists e0. split; [exact He0|]. rewrite Hp0. cbn.
+      destruct (E e0 He0) as [Hi [Hp _]]. destruct (Hp Hp0) as [_ [_ [F _]]]. rewrite (flags_covered P e0 F), (Hcov e0 He0 Hp0). reflexivity. }
+    rewrite C. split; [|split].
+    + apply consume_none. intros x Hx. apply in_map_iff in Hx. destruct Hx as [y [Hy Hin]]. subst x.
+      destruct (E y Hin) as [Hi [Hp [_ Hl]]]. rewrite (live_matches f P y Hi).
+      destruct (liveL f P y) eqn:L; [|reflexivity]. cbn. specialize (Hl eq_refl). rewrite (Hnc y Hin), orb_false_r in Hl. apply Hcov; assumption.
+    + cbn. rewrite Hn. reflexivity.
+    + exists e0. split; [exact He0|]. destruct (E e0 He0) as [_ [Hp _]]. apply (Hp Hp0).
+  - subst es. destruct (E e) as [Hi [Hp [Hc Hl]]]; [apply in_or_app; right; left; reflexivity|].
+    destruct (Hc Hce) as [L [F [Fi C]]].
+    assert (Pe : e_pot e = false). { destruct (e_pot e) eqn:X; [|reflexivity]. destruct (Hp eq_refl) as [Y _]. congruence. }
+    assert (Cm : can_match e = true). { unfold liveL in L. apply andb_true_iff in L. destruct L as [L _]. apply andb_true_iff in L. apply L. }
+    assert (FC : for_cur (call_was_made (c_order c)) (l1 ++ e :: l2) = l1 ++ call_was_made (c_order c) e :: l2).
+    { unfold for_cur. rewrite map_app. cbn. rewrite Hce. fold (for_cur (call_was_made (c_order c)) l1). fold (for_cur (call_was_made (c_order c)) l2).
+      rewrite !for_cur_id; [reflexivity| |]; intros x Hx; apply Hnc; apply in_or_app; [right|left]; exact Hx. }
+    rewrite FC. exists (e_ret e). split; [|split; [|split; [exact Hst|split; [reflexivity|]]]].
+    + rewrite map_abs_for_pot_reset, !map_app. cbn [map]. rewrite (abs_cwm _ _ Cm).
+      apply (consume_app f P (c_order c) (map abs l1) (abs e) (map abs l2)).
+      * intros x Hx. apply in_map_iff in Hx. destruct Hx as [y [Hy Hin]]. subst x.
+        destruct (E y) as [Hiy [Hpy [_ Hly]]]; [apply in_or_app; left; exact Hin|]. rewrite (live_matches f P y Hiy).
+        destruct (liveL f P y) eqn:Ly; [|reflexivity]. cbn. specialize (Hly eq_refl).
+        rewrite (Hnc y (in_or_app _ _ _ (or_introl Hin))), orb_false_r in Hly. apply Hl1; assumption.
+      * rewrite (live_matches f P e Hi), L, C. reflexivity.
+    + unfold cur_ret, for_pot. rewrite map_app. cbn [map].
+      assert (X : forall l, (forall x, In x l -> e_cur x = false) -> forall t, find e_cur (map (fun e => if e_pot e then reset_e e else e) l ++ t) = find e_cur t).
+      { induction l as [|a l IHl]; intros H t; [reflexivity|]. cbn. replace (e_cur (if e_pot a then reset_e a else a)) with (e_cur a) by (destruct (e_pot a); reflexivity).
+        rewrite (H a (or_introl eq_refl)). apply IHl. intros y Hy. apply H. right. exact Hy. }
+      rewrite X by (intros x Hx; apply Hnc; apply in_or_app; left; exact Hx). cbn.
+      change (e_pot (call_was_made (c_order c) e)) with (e_pot e). rewrite Pe.
+      change (e_cur (call_was_made (c_order c) e)) with (e_cur e). rewrite Hce. reflexivity.
+    + unfold for_pot. apply Forall_forall. intros x Hx. apply in_map_iff in Hx. destruct Hx as [y [Hy Hin]].
+      assert (W : wfE y).
+      { apply in_app_or in Hin. rewrite Forall_forall in Hwf. destruct Hin as [Hin|[Hin|Hin]].
+        - apply Hwf. apply in_or_app. left. exact Hin.
+        - subst y. destruct (Hwf e) as [W1 W2]; [apply in_or_app; right; left; reflexivity|]. split; [exact W1|].
+          unfold call_was_made. cbn. unfold can_match in Cm. apply N.ltb_lt in Cm. lia.
+        - apply Hwf. apply in_or_app. right. right. exact Hin. }
+      subst x. destruct (e_pot y); [|exact W]. destruct W as [W1 W2]. split; [exact W1|exact W2].
+Qed.
